@@ -214,5 +214,7 @@ Proof.
   assert (K1 : clip_ok 1) by (right; rewrite Rabs_R1; lra).
   assert (Km : clip_ok (-1)) by (right; unfold Rabs; destruct (Rcase_abs (-1)); lra).
   unfold rotation, rows_orthonormal, det, cross, dot, norm2, clip_ok_m, clip_ok3, to_main, vplus, vscale; cbn [vx vy vz].
-  repeat split; try assumption; try ring. f_equal; lra.
+  repeat split; try assumption; try ring.
+  - unfold dot; cbn [vx vy vz]; ring.
+  - f_equal; field.
 Qed.
